@@ -24,7 +24,7 @@ PINS = [
     ('src/blockdir.rs', 'impl BlockDir', 'validate', ['validate'], r'block_dir\b[^;]*\.validate\(|\.validate\(monitor', 'full validation reads and hashes every stored block and returns their lengths (C09)'),
     ('src/blockdir.rs', 'impl BlockDir', 'compressed_size', ['validate', 'gc'], r'compressed_size\(', 'stat of the block file (C09: present-but-unread blocks in quick validation)'),
     ('src/archive.rs', 'impl Archive', 'validate_archive_dir', ['validate'], r'validate_archive_dir\(', 'reports unexpected entries of the archive root (C09)'),
-    ('src/archive.rs', 'impl Archive', 'iter_entries', ['bandinfo', 'stitch'], r'fn iter_entries|Stitch::new\(', 'open_stored_tree(policy) then StoredTree::iter_entries with the caller\'s subtree and exclusions (C08, C12, C15)'),
+    # Archive::iter_entries is extracted and proved in unit bandinfo (archive_listing_* clauses): pin retired.
     ('src/diff.rs', '-', 'diff', ['merge'], r'fn next', 'builds the merge of the stored tree (Specified/LatestClosed policy) and the source walk with the caller\'s exclusions (C18)'),
     ('src/gc_lock.rs', 'impl Drop for GarbageCollectionLock', 'drop', ['gc'], r'GarbageCollectionLock|\block\b', 'the lock file is removed only by the lock that created it (C07, C05)'),
 ]
